@@ -44,6 +44,16 @@ def _go(self, token):
             envx.act(action)
 
 
+class HalfW(Ordered):
+    """Registration fails half-way: 'go' is wired, then the second mapping
+    names a missing method.  The program catches the error and drops it."""
+    __events__ = {'go': 'go', 'zz': 'no_such_method'}
+    _h = 977
+
+    def go(self, token=None):
+        _go(self, token)
+
+
 @desper.event_handler('go')
 class W(Ordered):
     """Listener for the plain dispatcher variant."""
@@ -99,6 +109,8 @@ def menu(variant, k):
 
 def run_case(case):
     variant, k, actions, order, premask = case
+    half = variant.endswith('+half')
+    variant = variant.split('+')[0]
     actions = [tuple(a) if a is not None else None for a in actions]
     order = tuple(order)
     calib = calibration(variant, k)
@@ -111,11 +123,19 @@ def run_case(case):
     envx.none_calls = 0
     envx.actions = actions
     envx.armed = False
+    envx.gone_at = {}
     _go.env = envx
     feats = dict(variant=variant)
 
     if variant == 'dispatcher':
         d = desper.EventDispatcher()
+        if half:
+            ghost = HalfW()
+            try:
+                d.add_handler(ghost)
+            except AttributeError:
+                hits['half_registered_then_dropped'] = 1
+            del ghost
         holder = {}
         refs = []
         for i in range(k):
@@ -127,6 +147,8 @@ def run_case(case):
         del o
 
         def drop(j):
+            if j in holder:
+                envx.gone_at.setdefault(j, len(envx.log))
             holder.pop(j, None)
 
         def act(action):
@@ -147,6 +169,7 @@ def run_case(case):
 
         def drop(j):
             if j not in state['gone']:
+                envx.gone_at.setdefault(j, len(envx.log))
                 d.remove_component(ents[j], WCS[j])
                 state['gone'].add(j)
 
@@ -157,6 +180,7 @@ def run_case(case):
             if kind == 'remove':
                 drop(j)
             elif kind == 'delete_now':
+                envx.gone_at.setdefault(j, len(envx.log))
                 d.delete_entity(ents[j], immediate=True)
                 state['gone'].add(j)
             elif kind == 'delete':
@@ -172,6 +196,7 @@ def run_case(case):
 
     def dispatch(label):
         envx.log = []
+        envx.gone_at = {}
         try:
             d.dispatch('go', label)
         except Exception as exc:
@@ -183,6 +208,14 @@ def run_case(case):
                             f'{envx.none_calls} callback(s) ran with receiver '
                             f'None during the {label} dispatch; actions '
                             f'{actions}, order {order}', **feats)
+        late = [j for j, at in envx.gone_at.items() if j in envx.log[at:]]
+        if late:
+            raise Violation(
+                'never_called_after_it_is_gone',
+                f'{label} dispatch: listener(s) {late} were called after '
+                f'their last strong reference had been dropped by an earlier '
+                f'callback (log {envx.log}, gone at {envx.gone_at}); actions '
+                f'{actions}, order {order}', **feats)
         return list(envx.log)
 
     def check_dead(when):
@@ -273,6 +306,10 @@ def cases(tier):
                 for order in orders:
                     for premask in premasks:
                         out.append((variant, k, actions, order, premask))
+                        if variant == 'dispatcher' and (
+                                tier == 'thorough' or premask == 0):
+                            out.append((variant + '+half', k, actions, order,
+                                        premask))
     return out
 
 
@@ -288,13 +325,15 @@ def run(tier, rep):
     all_cases = cases(tier)
     rep.require_hits(disappeared_during_dispatch=1,
                      gone_before_being_reached=1,
-                     dropped_between_operations=1)
+                     dropped_between_operations=1,
+                     half_registered_then_dropped=1)
     if all(len(calibration(v, 3)) == 6 for v in ('dispatcher', 'world')):
         rep.require_hits(order_012=1, order_021=1, order_102=1, order_120=1,
                          order_201=1, order_210=1)
     for variant in ('dispatcher', 'world'):
         kernel.enumerate_cases(
-            run_case, [c for c in all_cases if c[0] == variant], rep, variant,
+            run_case, [c for c in all_cases if c[0].split('+')[0] == variant],
+            rep, variant,
             params=dict(k=(1, 2, 3), menu=[repr(a) for a in menu(variant, 3)],
                         orders='all k! (calibrated through __hash__)'))
 
